@@ -465,10 +465,7 @@ class Interp:
                     self._assign(item.optional_vars, v, env, s)
             self._exec_block(s.body, env)
         elif isinstance(s, (ast.FunctionDef, ast.AsyncFunctionDef)):
-            cur = self.stack[-1] if self.stack else None
-            fi = cur.nested.get(s.name) if cur is not None else None
-            if fi is None:
-                fi = self.P.functions.get(f"{self.cur_func()}.{s.name}")
+            fi = self.P.by_node.get(id(s))
             if fi is None:
                 raise AnalysisError(f"nested function {s.name} not indexed")
             env.set(s.name, FuncV(fi, env))
@@ -1243,7 +1240,7 @@ class Interp:
                 nf.fn("kw:" + k, self.to_nf(v)) for k, v in sorted(kwargs.items())
             ]
             self.log("opaque_call", node, callee=callee, name=name, args=args, kwargs=kwargs)
-            if len(args) == 1 and not kwargs and isinstance(args[0], (Vec, TupV)):
+            if len(args) == 1 and not kwargs and isinstance(args[0], Vec):
                 return self._map1(args[0], lambda x: nf.fn(name, x))
             return Num(nf.fn(name, *parts))
         raise AnalysisError(f"{self.cur_func()}:{getattr(node, 'lineno', 0)}: cannot call {type(callee).__name__}")
